@@ -126,6 +126,12 @@ def _c16_harnesses():
                 bound="at most {M} physical items: every (length, consumed prefix) enumerated; keys, values, erased flags "
                       "symbolic; inductive per operation => all histories within that size",
                 covers=(0 if split else covers), timeout=1200, mod="sorted_deque", must_panic_in=mp))
+        hs.append(Harness(
+            "c16_%s_cleanup_front_contract" % kind, ["C16"], "SortedDeque::cleanup_front",
+            "[%s] the contract ASSUMED by the Verus unit sorted_deque: from any inner-deque-valid state (erased flags arbitrary) "
+            "cleanup_front drops exactly the leading run of erased items and changes nothing else" % label, kind="bounded",
+            bound="at most {NCF} physical items, consumed prefix 0 or 1, erased flags symbolic", covers=2, timeout=1200,
+            mod="sorted_deque"))
     return hs
 
 
@@ -133,7 +139,7 @@ SLIDING_DEQUE = KaniUnit(
     crate="sliding_deque",
     attachments=[("sliding_deque/src/sliding_deque.rs", os.path.join(KC, "sliding_deque.rs"), "sliding_deque"),
                  ("sliding_deque/src/sorted_deque.rs", os.path.join(KC, "sorted_deque.rs"), "sorted_deque")],
-    params={"quick": {"N": 5, "NS": 3, "NC": 4, "U": 12, "M": 4}, "thorough": {"N": 7, "NS": 4, "NC": 6, "U": 14, "M": 5}},
+    params={"quick": {"N": 5, "NS": 3, "NC": 4, "U": 12, "M": 4, "NCF": 7, "UCF": 11}, "thorough": {"N": 7, "NS": 4, "NC": 6, "U": 14, "M": 5, "NCF": 10, "UCF": 14}},
     harnesses=_c15_harnesses() + _c16_harnesses(),
 )
 
@@ -240,9 +246,10 @@ import units_vouched_time
 import units_sliding_deque
 import units_chunker
 import units_arena_read
+import units_sorted_deque
 VERUS_UNITS = {"hcobs": units_hcobs.HCOBS, "vouched_time": units_vouched_time.VOUCHED_TIME_VX,
                "sliding_deque": units_sliding_deque.SLIDING_DEQUE_VX, "chunker": units_chunker.CHUNKER,
-               "arena_read": units_arena_read.ARENA_READ}
+               "arena_read": units_arena_read.ARENA_READ, "sorted_deque": units_sorted_deque.SORTED_DEQUE_VX}
 
 # ---- Engine C: bounded native cross-checks (stand-ins only) ---------------------------------------------------
 from native_engine import NativeTest, NativeUnit
@@ -346,11 +353,25 @@ PROPERTIES["C16"] = {
     "level": "model_checking",
     "native_units": ["sorted_deque"],
     "kani_units": ["sliding_deque"],
-    "verus_units": [],
+    "verus_units": ["sorted_deque"],
     "assumptions": [
-        "bounded: at most M physical items (4 quick / 5 thorough), keys u8, values Option<u8>; both provided item "
+        "UNBOUNDED (Verus unit sorted_deque, generic in the container and the comparator): new, push_back_or_panic, clear, is_empty, "
+        "first, last, pop_first, pop_last, find, find_index, remove, cleanup_back, check_rep against the reference ordered map "
+        "`live` (the non-erased physical items, in order) and the invariant wf (inner deque invariant, keys strictly increasing "
+        "over ALL physical items, first and last physical item live); on top of the SlidingDeque contracts of C15 (re-verified in "
+        "the same unit)",
+        "ASSUMED in that proof: (1) SortedDeque::cleanup_front drops exactly the leading run of erased items (its body iterates "
+        "with .iter().enumerate(), outside Verus's dialect) -- checked BOUNDED by the Kani harnesses and the native cross-check; "
+        "(2) the comparator's order laws (Less/Greater antisymmetry, transitivity of Less, Equal is a congruence) and the "
+        "SortedDequeComparator / SortedDequeMarker method contracts (is_erased, extract_key, cmp pure; mark_erased sets the "
+        "flag and keeps the key) -- for the two PROVIDED conventions these are checked only by the bounded Kani harnesses; the "
+        "default body of is_erased is dropped (N14); (3) std: <[T]>::binary_search_by as documented, Ordering::eq structural",
+        "NOT covered by the Verus unit: iter() (an `impl Iterator` built from .iter().filter(), outside the dialect) and Default; "
+        "'pushing a not-greater key panics' (in Verus the assert is a proof obligation met by the precondition): these rest on "
+        "the bounded Kani harnesses (c16_*_iter_clear, c16_*_push_panics) and the native cross-check",
+        "bounded (Kani): at most M physical items (4 quick / 5 thorough), keys u8, values Option<u8>; both provided item "
         "conventions ((key, Option<value>) pairs and a SortedDequeItem with whole-item ordering); Vec backing",
-        "induction over operations is a meta-argument (each operation proved from every rep_ok state within the bound)",
+        "bounded (native, Engine C): every subset of removals over <= 10 / 13 keys, both conventions",
     ],
 }
 
